@@ -275,9 +275,13 @@ def run_part(ctx):
 
 
 def replay_part(ctx, data):
-    """Re-run a stored conv/pool witness (C02 / C14 parts)."""
+    """Re-run a stored conv/pool witness (C02 / C14 parts).  Returns None for witnesses of other parts."""
     np = _impl().np
+    if data.get("class") not in ("vjp", "fused-identity") or not str(data.get("site", "")).startswith("nn.functional."):
+        return None
     P = data["input"]
+    if not isinstance(P, dict) or P.get("op") not in OPS1 + OPS2:
+        return None
     if data.get("class") == "vjp":
         r = cc.call(cc.run_impl, P, True)
         if r[0] != "ok":
@@ -293,4 +297,4 @@ def replay_part(ctx, data):
             np.array_equal(rf[1]["grads"][n], rc[1]["grads"][n]) for n in rf[1]["grads"])
         print("fused == composition:", same)
         return 0 if same else 1
-    print(json.dumps(data.get("broken"), indent=1)); return 1
+    return None
